@@ -97,14 +97,17 @@ package syntax
 //@   ensures[frame] c != nil ==> forall q *CharSet {SubDepth(q)} :: old(allocated(q)) && q != c && SubDepth(q) >= SubDepth(c) ==> q.ascii == old(q.ascii)
 //@   ensures c != nil ==> c.ascii != nil
 //@   ensures c != nil && old(c.ascii) != nil ==> c.ascii == old(c.ascii)
-//@   ensures[agrees] c != nil && old(c.ascii) == nil ==> fresh(c.ascii) && forall a rune :: 0 <= a && a < 128 ==> BitmapHas(c.ascii, a) == Member(*c, a)
+//@   ensures[agrees] c != nil && old(c.ascii) == nil ==> fresh(c.ascii) && forall a rune {mark(a)} :: 0 <= a && a < 128 ==> BitmapHas(c.ascii, a) == Member(*c, a)
 //@   loop 0:
 //@     invariant 0 <= i && i < 128 && c != nil && c.ascii == nil && bm != nil && fresh(bm)
-//@     invariant[lo-done] forall a rune :: 0 <= a && a < i && a < 64 ==> (band(bm.bits[0], pow2(a)) != 0) == Member(*c, a)
-//@     invariant[hi-done] forall a rune :: 64 <= a && a < i ==> (band(bm.bits[1], pow2(a - 64)) != 0) == Member(*c, a)
-//@     invariant[lo-todo] forall a rune :: i <= a && a < 64 ==> band(bm.bits[0], pow2(a)) == 0
-//@     invariant[hi-todo] forall a rune :: i <= a && 64 <= a && a < 128 ==> band(bm.bits[1], pow2(a - 64)) == 0
+//@     invariant[lo-done] forall a rune {pow2(a)} :: 0 <= a && a < i && a < 64 ==> (band(bm.bits[0], pow2(a)) != 0) == Member(*c, a)
+//@     invariant[hi-done] forall b rune {pow2(b)} :: 0 <= b && b + 64 < i ==> (band(bm.bits[1], pow2(b)) != 0) == Member(*c, b + 64)
+//@     invariant[lo-todo] forall a rune {pow2(a)} :: i <= a && 0 <= a && a < 64 ==> band(bm.bits[0], pow2(a)) == 0
+//@     invariant[hi-todo] forall b rune {pow2(b)} :: i <= b + 64 && 0 <= b && b < 64 ==> band(bm.bits[1], pow2(b)) == 0
 //@     invariant 0 <= bm.bits[0] && bm.bits[0] < 18446744073709551616 && 0 <= bm.bits[1] && bm.bits[1] < 18446744073709551616
+//@     exit[shape]  c != nil && c.ascii == nil && bm != nil && fresh(bm) && old(c.ascii) == nil
+//@     exit[agrees] forall a rune {mark(a)} :: 0 <= a && a < 128 ==> BitmapHas(bm, a) == Member(*c, a)
+//@     exit[frame]  forall q *CharSet {SubDepth(q)} :: old(allocated(q)) && q != c && SubDepth(q) >= SubDepth(c) ==> q.ascii == old(q.ascii)
 //@     decreases 128 - i
 
 //@ func (c CharSet) IsSingleton() (b bool)
